@@ -134,15 +134,25 @@ impl Service {
         let faults = rng.chance(1, 4);
         let jumps = rng.chance(1, 6);
         let small_names = rng.chance(1, 5);
-        let pnames = ["p1", "p2"];
+        // a tiny shared pool (equal names under different owners are the norm); one world in six
+        // uses names that need escaping in a URL path
+        let pnames: [&str; 2] = if rng.chance(1, 6) { *rng.pick(&[["p 1", "pé"], ["p%41", "p.1"], ["a+b", "p1"]]) } else { ["p1", "p2"] };
+        // "twin problems" worlds (one in six): every client files the same marker-free code under
+        // the same problem name early on and keeps working on it, so that documents of different
+        // owners agree in everything but the owner
+        let twin = rng.chance(1, 6);
+        let twin_code = common_code(rng);
+        let twin_p: String = pnames[rng.below(2) as usize].into();
         let mut clients = Vec::new();
         for c in 0..nclients {
             // occasionally names that differ only by a trailing blank or by case: distinct
             // accounts as far as the service is concerned
             let variant = |rng: &mut Rng, base: String| -> String {
-                match rng.below(12) {
+                match rng.below(16) {
                     0 => format!("{base} "),
                     1 => base.to_uppercase(),
+                    2 => format!("{base}é"),
+                    3 => format!("{base}.x$y"),
                     _ => base,
                 }
             };
@@ -163,7 +173,11 @@ impl Service {
                 };
                 variant(rng, base)
             };
-            let pw = |rng: &mut Rng| format!("pw{c}x{}", rng.below(2));
+            let pw = |rng: &mut Rng| match rng.below(12) {
+                0 => format!("pw{c}xé{}", rng.below(2)),
+                1 => format!("pw{c}x{}", "long".repeat(20)),
+                _ => format!("pw{c}x{}", rng.below(2)),
+            };
             let len = rng.range(3, if thorough { 12 } else { 9 }) as usize;
             let mut script = Vec::new();
             // most scripts start by obtaining an account
@@ -177,7 +191,20 @@ impl Service {
                     script.push(Rq::Login { name: n, pw: p });
                 }
             }
+            if twin {
+                script.push(Rq::Add { pname: twin_p.clone(), code: twin_code.clone(), parsing: "Naive".into() });
+            }
+            let len = if twin { len + 2 } else { len };
             while script.len() < len {
+                if twin && rng.chance(1, 3) {
+                    script.push(match rng.below(6) {
+                        0 => Rq::Add { pname: twin_p.clone(), code: twin_code.clone(), parsing: "Naive".into() },
+                        1 => Rq::Delete { pname: twin_p.clone() },
+                        2 => Rq::Get { pname: twin_p.clone() },
+                        _ => Rq::Solve { pname: twin_p.clone(), strategy: STRATEGIES[rng.below(6) as usize].into() },
+                    });
+                    continue;
+                }
                 let r = match rng.below(24) {
                     0 => Rq::Register { name: acct(rng), pw: pw(rng) },
                     1 | 2 => Rq::Login { name: acct(rng), pw: pw(rng) },
@@ -274,7 +301,9 @@ impl Service {
                 script.push(Rq::Register { name: format!("c{c}a"), pw: format!("pw{c}x0") });
                 script.push(Rq::Login { name: format!("c{c}a"), pw: format!("pw{c}x0") });
             }
-            let pnames = ["p1", "p2"];
+            // a tiny shared pool (equal names under different owners are the norm); one world in six
+        // uses names that need escaping in a URL path
+        let pnames: [&str; 2] = if rng.chance(1, 6) { *rng.pick(&[["p 1", "pé"], ["p%41", "p.1"], ["a+b", "p1"]]) } else { ["p1", "p2"] };
             let len = rng.range(4, if thorough { 16 } else { 12 }) as usize;
             let first = pnames[rng.below(2) as usize];
             let big = rng.chance(1, 12);
@@ -445,11 +474,11 @@ pub fn build_request_with(jar: &Option<String>, rq: &Rq) -> actix_http::Request 
             Rq::Update { name, pw } => req_json("PUT", "/users/update", jar, Some(serde_json::json!({"username": name, "password": pw}))),
             Rq::DeleteAccount => req_json("DELETE", "/users/delete", jar, None),
             Rq::Add { pname, code, parsing } => req_add(jar, pname, &code.text(), parsing),
-            Rq::Solve { pname, strategy } => req_json("PUT", &format!("/adf/{pname}/solve"), jar, Some(serde_json::json!({"strategy": strategy}))),
-            Rq::Get { pname } => req_json("GET", &format!("/adf/{pname}"), jar, None),
+            Rq::Solve { pname, strategy } => req_json("PUT", &format!("/adf/{}/solve", path_segment(pname)), jar, Some(serde_json::json!({"strategy": strategy}))),
+            Rq::Get { pname } => req_json("GET", &format!("/adf/{}", path_segment(pname)), jar, None),
             Rq::List => req_json("GET", "/adf/", jar, None),
-            Rq::Delete { pname } => req_json("DELETE", &format!("/adf/{pname}"), jar, None),
-            Rq::ForgedGet { pname } => req_json("GET", &format!("/adf/{pname}"), &Some("Zm9yZ2VkLWNvb2tpZS12YWx1ZQ%3D%3D".into()), None),
+            Rq::Delete { pname } => req_json("DELETE", &format!("/adf/{}", path_segment(pname)), jar, None),
+            Rq::ForgedGet { pname } => req_json("GET", &format!("/adf/{}", path_segment(pname)), &Some("Zm9yZ2VkLWNvb2tpZS12YWx1ZQ%3D%3D".into()), None),
             Rq::ForgedList => req_json("GET", "/adf/", &Some("Zm9yZ2VkLWNvb2tpZS12YWx1ZQ%3D%3D".into()), None),
         }
     }
@@ -793,8 +822,15 @@ impl<'a> Run<'a> {
                     let acct = self.cl[c].acct.clone().unwrap_or_default();
                     let have = self.cl[c].model.get(&acct).and_then(|m| m.get(pname)).cloned();
                     if ok {
+                        if path_segment(pname) != *pname {
+                            self.stats.inc("probe_get_200_of_problem_name_needing_url_escape");
+                        }
                         if let Some(j) = resp.json() {
                             let code = j["code"].as_str().unwrap_or("").to_string();
+                            if j["name"].as_str() != Some(pname.as_str()) {
+                                let v = Violation::new("O3-own-view", "wrong-problem", format!("client {c} get {pname:?}: answered with problem {}", j["name"]));
+                                self.viol_client(c, v);
+                            }
                             match &have {
                                 Some(h) if *h == code => {}
                                 Some(h) if strict => {
@@ -912,6 +948,19 @@ fn foreign_running_task(c: usize, pname: &str, j: &serde_json::Value, tasks: &BT
 
 fn t_id(_t: &crate::world::TaskMeta, ev: &OpEvent) -> u64 {
     ev.touched.first().map(|t| t.id).unwrap_or(0)
+}
+
+/// A problem name as one percent-encoded path segment (the service decodes it again).
+pub fn path_segment(name: &str) -> String {
+    let mut out = String::new();
+    for b in name.bytes() {
+        if b.is_ascii_alphanumeric() || matches!(b, b'-' | b'.' | b'_' | b'~') {
+            out.push(b as char);
+        } else {
+            out.push_str(&format!("%{b:02X}"));
+        }
+    }
+    out
 }
 
 pub fn clip(s: &str) -> String {
@@ -1305,8 +1354,20 @@ async fn final_phase(run: &mut Run<'_>) {
         let acct = run.cl[c].acct.clone().unwrap_or_default();
         let names: Vec<String> = {
             let mut v: BTreeSet<String> = run.cl[c].model.get(&acct).map(|m| m.keys().cloned().collect()).unwrap_or_default();
-            v.insert("p1".into());
-            v.insert("p2".into());
+            // plus every problem name any script of this world mentions (the shared pool)
+            for script in &run.case.clients {
+                for rq in script {
+                    match rq {
+                        Rq::Add { pname, .. } | Rq::Solve { pname, .. } | Rq::Get { pname } | Rq::Delete { pname } | Rq::ForgedGet { pname } if !pname.is_empty() => {
+                            v.insert(pname.clone());
+                        }
+                        _ => {}
+                    }
+                }
+            }
+            if v.is_empty() {
+                v.insert("p1".into());
+            }
             v.into_iter().collect()
         };
         for pname in names {
